@@ -214,6 +214,33 @@ CLAIMED['C19'] = dict(
          'consecutive ids from the emitter state it was created with), Z3.',
     ref='§4 C19')
 
+CLAIMED['C16'] = dict(
+    text='Decides with Z3 over the real MIR: C16.K1 Native::check_if_valid_call, the gate in front of every native, for all three arity '
+         'forms, any parameter kinds and <= 3 (quick) / 4 arguments: a native is entered exactly when the count fits and every argument '
+         'passed the test of its own parameter (remaining arguments against the variadic one); C16.K2 call, call_closure and '
+         'call_native from any state with at most MAX_FRAME_SIZE frames push a frame only below the limit and otherwise raise the '
+         'catchable stack-overflow error, so the call depth is bounded on every path, native callbacks included; C16.K3 op_inherit '
+         'never accepts a builtin value class as superclass, which is what makes the unchecked receiver casts of the builtin '
+         'natives sound. Found and fixed F21 (recursion through native callbacks skipped the depth limit: host stack overflow) and '
+         'F14 (class L : List {}: abort / segfault). The bodies of the ~200 natives beyond the list natives of C11 and the '
+         'error-while-handling paths are not machine checked: this claim covers the gates, not every built-in.',
+    note='Trusted: rustc MIR printer, mirsym, abstract Vm state (vmabs.py), ParameterKind::is_valid summarised per (parameter, '
+         'argument) pair with Object accepting everything, native bodies summarised by their result, Z3.',
+    ref='§4 C16')
+
+CLAIMED['C18'] = dict(
+    text='Decides with Z3 over the real MIR: C18.K1 Fiber::pause_unwind for <= 4 (quick) / 6 frames, any handler depth and any number of '
+         'frames already recorded by an earlier stage of the same unwind: the backtrace holds one position per frame from the '
+         'raising frame down to the handler frame, earlier entries (the true raise sites) are kept and newly covered frames are '
+         'appended innermost first; C18.K2 call_native: exit(n) ends the run with exactly n in both native environments, an error '
+         'raised by a native becomes the fiber\'s current error; the import instructions end the run with a failing status when a '
+         'module does not compile (C17.K2, found and fixed F20); the unwinding target itself is C04.K2 and one line-table entry '
+         'per code byte is C06.K1. The text of the traceback (print_error, frame_line formatting, line lookup) and the final '
+         'ExecutionResult to process status mapping in Vm::run / main.rs are not machine checked.',
+    note='Trusted: rustc MIR printer, mirsym, UniqueVector modelled as buffer + length, iterator adaptors rev / skip / take / map / '
+         'collect modelled over bounded sequences, Z3.',
+    ref='§4 C18')
+
 NOT_APPLICABLE = {
     'C08': 'global liveness of the fiber scheduler needs the running Vm (DESIGN.md §6); no bounded symbolic encoding of the real scheduler is within reach',
 }
